@@ -5,9 +5,12 @@ import Driver.Block
 import Driver.Snappy
 import Driver.IterStack
 import Driver.Table
+import Driver.WFile
+import Driver.Policy
+import Driver.Skiplist
 open Lcdb Drv
 
-def handlers : List (List String → String) := [handleCore, handleFormats, handleFilter, handleBlock, handleSnappy, handleIterStack, handleTable]
+def handlers : List (List String → String) := [handleCore, handleFormats, handleFilter, handleBlock, handleSnappy, handleIterStack, handleTable, handleWFile, handlePolicy, handleSkiplist]
 
 def handle (line : String) : String :=
   let f := line.trimAscii.toString.splitOn " "
